@@ -826,6 +826,17 @@ pub fn exec_one_from_stdin() -> i32 {
     let _ = std::io::Read::read_to_string(&mut std::io::stdin(), &mut buf);
     match serde_json::from_str::<Scn>(&buf) {
         Ok(scn) => {
+            // the same CPU-time budget as in the batch workers, so that a replay judges like the search
+            std::thread::spawn(|| {
+                let start = process_cpu_seconds();
+                loop {
+                    std::thread::sleep(std::time::Duration::from_millis(200));
+                    if process_cpu_seconds() - start > SCENARIO_CPU_BUDGET_S {
+                        println!("FAIL step_did_not_return_within_cpu_budget used more than {} CPU seconds", SCENARIO_CPU_BUDGET_S);
+                        std::process::exit(0);
+                    }
+                }
+            });
             let h = std::thread::Builder::new().stack_size(64 * 1024 * 1024).spawn(move || crate::framework::execute_caught(&C06, &scn));
             match h.map(|h| h.join()) {
                 Ok(Ok(rep)) => {
